@@ -322,3 +322,30 @@ def steer_forgeries(rng, s):
         if len(out) >= 6:
             return rho, out
     return rho, out
+
+
+# ------------------------------------------------------------------ rare-event corpus (checks/mk_corpus.py, reference only)
+def rare_inputs():
+    import json
+    path = os.path.join(os.path.dirname(os.path.dirname(os.path.abspath(__file__))), 'corpus', 'rare_inputs.json')
+    try:
+        return json.load(open(path))
+    except OSError:
+        return {'sign': {}, 'keygen65_long_rejection': []}
+
+
+def rare_sign_cases(s):
+    """(tag, xi, sk, pk, msg, ctx, rnd) with a FIPS signature of exactly omega hints, omega-1, an empty last / first hint polynomial"""
+    d = rare_inputs()['sign'].get(s)
+    if not d:
+        return []
+    xi = bytes.fromhex(d['xi'])
+    pk, sk = keypair(s, xi)
+    return [(tag, xi, sk, pk, bytes.fromhex(m), bytes.fromhex(d['ctx']), bytes.fromhex(d['rnd'])) for tag, m in d['messages'].items()]
+
+
+def rare_keygen_seeds(s):
+    """ML-DSA-65 seeds for which one RejBoundedPoly call needs more than two SHAKE256 blocks"""
+    if s != '65':
+        return []
+    return [bytes.fromhex(e['xi']) for e in rare_inputs()['keygen65_long_rejection']]
